@@ -329,29 +329,63 @@ def enc_state():
             out.append((bytes(enc), tuple(cs), uu.calc_width(enc, 0, len(enc))))
         except Exception as e:  # noqa: BLE001
             out.append(("EXC", type(e).__name__))
+    # the same raw byte strings in every encoding: a result remembered from an earlier encoding would show here
+    for b in RAW:
+        n = len(b)
+        for fn in (lambda: su.calc_width(b, 0, n), lambda: su.calc_text_pos(b, 0, n, 1), lambda: su.move_next_char(b, 0, n), lambda: su.move_prev_char(b, 0, n),
+                   lambda: su.is_wide_char(b, 0), lambda: uu.calc_trim_text(b, 0, n, 0, 2), lambda: su.calc_string_text_pos(b.decode("latin-1"), 0, n, 1)):
+            try:
+                out.append(fn())
+            except Exception as e:  # noqa: BLE001
+                out.append(("EXC", type(e).__name__))
     return out
+
+
+RAW = [b"\xe4\xbd\xa0", b"\xa4\xa2a", b"a\xc3\xa9", b"\x81@", b"\xa1\xc4"]
+
+
+def norm(x):
+    import json
+
+    return json.loads(json.dumps(x, default=lambda o: o.hex() if isinstance(o, (bytes, bytearray)) else repr(o)))
+
+
+def fresh_state(e2):
+    """enc_state() after set_encoding(e2) in a brand-new interpreter: nothing can be left over from another encoding there"""
+    import json
+    import os
+    import subprocess
+    import sys
+
+    root = os.path.dirname(os.path.dirname(os.path.dirname(os.path.abspath(__file__))))
+    code = ("import sys, json; sys.path.insert(0, %r); from mc import env; from mc.checks import c11; import urwid.util as uu; "
+            "uu.set_encoding(sys.argv[1]); print(json.dumps(c11.norm(c11.enc_state())))" % root)
+    p = subprocess.run([sys.executable, "-c", code, e2], capture_output=True, text=True, timeout=120)
+    if p.returncode:
+        raise RuntimeError(f"fresh interpreter failed: {p.stderr[-400:]}")
+    return json.loads(p.stdout.strip().splitlines()[-1])
 
 
 def encoding_history_task(task, ctx: Ctx):
     """set_encoding must be a function of its argument: the state after set_encoding(e1); set_encoding(e2) equals the state
     after set_encoding(e2) alone (no part of the configuration may survive from an earlier call)"""
-    _, e1s = task
+    _, e2s = task
     import urwid.util as uu
 
-    for e2 in ENC_NAMES:
-        uu.set_encoding("ascii")
-        uu.set_encoding(e2)
-        fresh = enc_state()
-        for e1 in e1s:
+    for e2 in e2s:
+        fresh = fresh_state(e2)
+        for e1 in ENC_NAMES:
             ctx.count("evaluations")
             uu.set_encoding(e1)
+            enc_state()  # use every function under e1 first
             uu.set_encoding(e2)
-            got = enc_state()
+            got = norm(enc_state())
             ctx.obs(e1, e2, got[:2])
             if got != fresh:
                 k = next(i for i, (a, b) in enumerate(zip(got, fresh)) if a != b)
-                ctx.violation("encoding-history", f"C11/encoding-history/{'target' if k == 1 else ('mode' if k == 0 else 'text')}", {"part": "enc-history", "e1": e1, "e2": e2},
-                              f"set_encoding({e1!r}); set_encoding({e2!r}) leaves {got[k]!r}; set_encoding({e2!r}) alone gives {fresh[k]!r}")
+                what = "target" if k == 1 else ("mode" if k == 0 else ("text" if k < 2 + len(SAMPLE) else "raw-bytes"))
+                ctx.violation("encoding-history", f"C11/encoding-history/{what}", {"part": "enc-history", "e1": e1, "e2": e2},
+                              f"set_encoding({e1!r}), use, set_encoding({e2!r}) gives {got[k]!r} (observation {k}); a fresh interpreter after set_encoding({e2!r}) alone gives {fresh[k]!r}")
             else:
                 ctx.distinct("nontrivial", ("enc", e1, e2))
     env.reset("utf-8")
